@@ -409,3 +409,24 @@ def fst_eps_acyclic(desc):
     """no cycle of ε:ε arcs"""
     d = {"arcs": [[e[0], "", e[3], e[4]] for e in desc["arcs"] if e[1] == "" and e[2] == ""]}
     return eps_acyclic(d)
+
+
+def gen_finite_cfg(rng, terms=None, weights=None):
+    """two-level acyclic grammar: every string has length ≤ 4 (exact finite sums everywhere)"""
+    terms = terms or TERMS[:2]
+    W = weights or DYADIC
+    l1 = [f"N{i}" for i in range(1, rng.choice([2, 3, 4]))]
+    rules = []
+    for X in l1:
+        for _ in range(rng.randint(1, 3)):
+            rules.append([rng.choice(W), X, [rng.choice(terms) for _ in range(rng.choice([0, 1, 1, 2]))]])
+    for _ in range(rng.randint(2, 4)):
+        body = [rng.choice(l1 + terms) for _ in range(rng.choice([0, 1, 2, 2]))]
+        rules.append([rng.choice(W), "S", body])
+    if rng.random() < 0.3:
+        rules.append([rng.choice(W), "S", [rng.choice(l1)]])      # unary
+    if rng.random() < 0.3:
+        r = rng.choice(rules)
+        rules.append([rng.choice(W), r[1], list(r[2])])           # duplicate
+    rng.shuffle(rules)
+    return {"S": "S", "V": sorted(terms), "rules": [[frac_str(w), h, b] for w, h, b in rules]}
